@@ -636,6 +636,11 @@ func (m *collection) get(key []byte, readOptions ReadOptions) ([]byte, error) {
 		return nil, err
 	}
 
+	// The snapshot is closed before returning, and there is no other
+	// handle whose lifetime could keep a non-copied value of the lower
+	// level (mmap'ed file) valid, so such a value is always copied.
+	readOptions.NoCopyValue = false
+
 	val, err := ss.Get(key, readOptions)
 
 	ss.Close()
